@@ -330,6 +330,16 @@ func Eq(a, b *Term) *Term {
 		}
 		return Not(a)
 	}
+	// x + c1 = x + c2 with distinct constants; x + c = x with c != 0
+	if a.Op == "bvadd" && b.Op == "bvadd" && a.Args[0] == b.Args[0] && a.Args[1].Op == "const" && b.Args[1].Op == "const" {
+		return Bool(a.Args[1].Val.Cmp(b.Args[1].Val) == 0)
+	}
+	if a.Op == "bvadd" && a.Args[0] == b && a.Args[1].Op == "const" {
+		return Bool(a.Args[1].Val.Sign() == 0)
+	}
+	if b.Op == "bvadd" && b.Args[0] == a && b.Args[1].Op == "const" {
+		return Bool(b.Args[1].Val.Sign() == 0)
+	}
 	// structural: mkb
 	if a.Op == "mkb" && b.Op == "mkb" {
 		l := Eq(a.Args[1], b.Args[1])
@@ -402,6 +412,10 @@ func BVMul(a, b *Term) *Term {
 	}
 	if b.Op == "const" && b.Val.Sign() == 0 {
 		return b
+	}
+	// (x + c1) * c2 -> x*c2 + c1*c2 (modular arithmetic distributes)
+	if b.Op == "const" && a.Op == "bvadd" && a.Args[1].Op == "const" {
+		return BVAdd(BVMul(a.Args[0], b), BVBig(a.Width(), new(big.Int).Mul(a.Args[1].Val, b.Val)))
 	}
 	return bvBin("bvmul", a, b, func(x, y *big.Int, w int) *big.Int { return new(big.Int).Mul(x, y) })
 }
@@ -640,6 +654,11 @@ func Blen(b *Term) *Term {
 		case "ecrecKey":
 			return BV(64, 65)
 		}
+		if blenOfApp != nil {
+			if n := blenOfApp(b.Name); n > 0 {
+				return BV(64, int64(n))
+			}
+		}
 	}
 	if b.Op == "ite" {
 		return Ite(b.Args[0], Blen(b.Args[1]), Blen(b.Args[2]))
@@ -708,6 +727,9 @@ func Subst(t *Term, m map[*Term]*Term) *Term {
 	}
 	return rec(t)
 }
+
+// blenOfApp gives the fixed result length of opaque spec functions declared bytes[N].
+var blenOfApp func(name string) int
 
 // rebuildApp lets the spec layer re-fold prelude functions (snap, cat) after substitution.
 var rebuildApp func(name string, args []*Term) *Term
@@ -867,7 +889,7 @@ func printTerm(sb *strings.Builder, t *Term, names map[*Term]string) {
 		if len(t.Pats) > 0 {
 			sb.WriteString("(! ")
 		}
-		printTerm(sb, t.Args[0], names)
+		printShared(sb, t.Args[0], names)
 		for _, p := range t.Pats {
 			sb.WriteString(" :pattern (")
 			for i, a := range p {
@@ -1083,4 +1105,56 @@ func preludeDeclared(prelude string) map[string]bool {
 		}
 	}
 	return out
+}
+
+// printShared prints a quantifier body, binding sub-terms that occur more than once (and are not already
+// named globally) with nested lets so that the text stays linear in the size of the term DAG.
+func printShared(sb *strings.Builder, body *Term, names map[*Term]string) {
+	if names == nil {
+		printTerm(sb, body, names)
+		return
+	}
+	refc := map[*Term]int{}
+	var order []*Term
+	seen := map[*Term]bool{}
+	var rec func(t *Term)
+	rec = func(t *Term) {
+		if _, ok := names[t]; ok {
+			return
+		}
+		refc[t]++
+		if seen[t] {
+			return
+		}
+		seen[t] = true
+		if t.Op == "forall" || t.Op == "exists" {
+			// nested binder: its body is handled when it is printed
+			return
+		}
+		for _, a := range t.Args {
+			rec(a)
+		}
+		order = append(order, t)
+	}
+	rec(body)
+	local := map[*Term]string{}
+	for k, v := range names {
+		local[k] = v
+	}
+	depth := 0
+	for _, t := range order {
+		if refc[t] < 2 || len(t.Args) == 0 || t == body {
+			continue
+		}
+		var b strings.Builder
+		printTerm(&b, t, local)
+		nm := fmt.Sprintf("?l%d", t.id)
+		fmt.Fprintf(sb, "(let ((%s %s)) ", nm, b.String())
+		local[t] = nm
+		depth++
+	}
+	printTerm(sb, body, local)
+	for i := 0; i < depth; i++ {
+		sb.WriteByte(')')
+	}
 }
